@@ -4,6 +4,7 @@ import (
 	"context"
 	"errors"
 	"fmt"
+	"slices"
 	"sort"
 	"sync"
 	"time"
@@ -79,8 +80,10 @@ type PlainProbe struct {
 	Busy    time.Duration
 	Late    []InSpec // inputs added through UpdateInputs on the LateAt-th wake-up (0 = never)
 	LateAt  int
-	RunOut  Outcomes                                                              // outcome per wake-up: ok | err (Run returns error) | panic
-	OnWake  func(ctx context.Context, r controller.Runtime, p *PlainProbe, n int) // extra work per wake-up
+	// LateDrop lists indexes into Ins that the same UpdateInputs call drops (narrowing the declared inputs).
+	LateDrop []int
+	RunOut   Outcomes                                                              // outcome per wake-up: ok | err (Run returns error) | panic
+	OnWake   func(ctx context.Context, r controller.Runtime, p *PlainProbe, n int) // extra work per wake-up
 
 	mu               sync.Mutex
 	Obs              []Obs
@@ -241,7 +244,15 @@ func (p *PlainProbe) Run(ctx context.Context, r controller.Runtime, _ *zap.Logge
 		o := Obs{T: p.W.Now(), LogLen: p.W.NCommits()}
 
 		if p.LateAt > 0 && n+1 == p.LateAt {
-			all := append(append([]InSpec(nil), p.Ins...), p.Late...)
+			all := []InSpec{}
+
+			for idx, in := range p.Ins {
+				if !slices.Contains(p.LateDrop, idx) {
+					all = append(all, in)
+				}
+			}
+
+			all = append(all, p.Late...)
 
 			cins := make([]controller.Input, 0, len(all))
 			for _, i := range all {
